@@ -27,7 +27,26 @@ Require Import Ctpg.Proofs.CapFormulaCex.
 Require Import Ctpg.Model.Containers.
 Require Import Ctpg.Proofs.ContainersVec.
 Require Import Ctpg.Proofs.CapFormulaRec.
+Require Import Ctpg.Proofs.StackVectorLink.
 From Coq Require Import Permutation.
+
+(* LINK (stacks): the driver model keeps its stacks as lists with the top at the head and throws when `full (length stack)`; on the cvector representation (array + size, bottom first) push_back throws in exactly that case and otherwise yields the related stack - so the capacity theorems about the driver model speak about the real fixed-capacity stacks *)
+Theorem C12_the_drivers_capacity_test_is_cvectors :
+  forall (A : Type) (c : cvector A) (l : list A) (x : A), stack_rel c l -> (drv_full (N.to_nat (cv_cap c)) (length l) = true -> cv_push c x = Throw) /\ (drv_full (N.to_nat (cv_cap c)) (length l) = false -> exists c' : cvector A, cv_push c x = Ok c' /\ stack_rel c' (x :: l) /\ cv_cap c' = cv_cap c).
+Proof. exact @push_sim. Qed.
+Print Assumptions C12_the_drivers_capacity_test_is_cvectors.
+
+(* reduce()'s erase(end() - n, end()) is skipn n on the driver's list, for every n *)
+Theorem C12_reduce_pops_on_the_vector_are_skipn :
+  forall (A : Type) (c : cvector A) (l : list A) (n : nat), stack_rel c l -> exists c' : cvector A, cv_erase c (Z.of_N (cv_size c) - Z.of_N (N.of_nat n)) (Z.of_N (cv_size c)) = Ok c' /\ stack_rel c' (skipn n l) /\ cv_cap c' = cv_cap c.
+Proof. exact @pop_n_sim. Qed.
+Print Assumptions C12_reduce_pops_on_the_vector_are_skipn.
+
+(* for every sequence of pushes and pops the two representations stay related *)
+Theorem C12_stack_simulation_on_every_operation_sequence :
+  forall (A : Type) (cap : N) (d : A) (ops : list (A + nat)), stack_rel (fold_left cv_exec ops (cv_new cap d)) (fold_left (l_exec (N.to_nat cap)) ops []).
+Proof. exact @run_sim. Qed.
+Print Assumptions C12_stack_simulation_on_every_operation_sequence.
 
 (* stdex::cvector<T,N> (array + size, the word-level mirror of Model/Containers.v tied to the real template by kernel-checked observations): for EVERY sequence of push_back / pop_back / clear / erase operations its contents are those of the list specification bounded by N - a push beyond the capacity changes nothing *)
 Theorem C12_cvector_is_a_bounded_list_for_every_operation_sequence :
